@@ -707,6 +707,8 @@ class Scheduler:
                                     dependency,
                                     job,
                                 )
+                                # Give back at once what was already taken
+                                locks.release()
                                 dependency.check()
                                 return JobState.WAITING
 
